@@ -202,7 +202,7 @@ func ruleOpenOrder(c *Ctx) {
 		c.check(edgesDominate(open, okEdges, ci.Block()), "Open", "after successful mode check: "+desc, c.P.ipos(ci),
 			"this file-system effect happens only after the mode check returned nil", "this file-system effect can happen before, or regardless of, the index-mode check: a refused Open would not leave the directory unchanged")
 	})
-	c.minInstances("file-system effects in Open", n, 4)
+	c.minInstances("file-system effects in Open", n, 2)
 	// the check's error is returned: the error edge leads to a return of a non-nil error without fs effects (follows from domination above)
 	errEdges := nilEdges(open, false, func(x ssa.Value) bool { return sameValue(x, site) })
 	okRet := len(errEdges) > 0
